@@ -316,6 +316,7 @@ type c11spec struct {
 	order   []string // explicit schedule ("X" one step, "X*" until blocked/done); empty = random
 	holdOPN bool     // hold the OPN response in the dispatcher until the renewal has timed out
 	sign    bool     // Basic256Sha256 / Sign instead of None
+	preset  uint32   // if not 0: the sequence counter of the active instance is set to this before the schedule runs
 }
 
 // c11run runs a scenario; forced (explicit order) scenarios are run twice and must come out the same: a schedule the
@@ -395,6 +396,9 @@ func c11once(r *rng.R, sp c11spec) (map[string]interface{}, error) {
 		ctl.Control("disp")
 	}
 	b := &bench{p: p, ctl: ctl, chunkN: map[string]int{}}
+	if sp.preset != 0 {
+		p.V.SchedSetActiveSequenceNumber(sp.preset) // e.g. just below the roll-over at 2^32 - 1024
+	}
 	seqs := p.V.SchedInstanceSeqs()
 	seq0 := uint32(0)
 	if len(seqs) > 0 {
@@ -552,6 +556,12 @@ func c11(seed uint64, n int, schedArg string) {
 			order: []string{"S0", "S0", "R0*", "S1", "S0", "S1", "S0", "S1", "S0", "S0*", "R0*", "S1*"}},
 		// a renewal that times out after its OPN was written (fix 5bac950: the counter is handed back)
 		{name: "witness-failed-renewal", chunks: []int{1}, renews: 1, holdOPN: true, order: []string{"R0*", "S0*"}},
+		// the same across the roll-over of the counter: MSG 4294966272, the failed renewal's OPN takes 1, next MSG 2
+		{name: "failed-renewal-at-roll-over", chunks: []int{1, 1}, renews: 1, holdOPN: true, preset: 4294966271,
+			order: []string{"S0*", "R0*", "S1*"}},
+		// and a renewal that succeeds across the roll-over
+		{name: "renewal-at-roll-over", chunks: []int{2, 1}, renews: 1, preset: 4294966270,
+			order: []string{"S0*", "R0*", "S1*"}},
 		// the gate check and pendingReq.Add are one step: while a sender is inside waitIfLockThen (gate seen open,
 		// not yet counted) the renewer cannot even lock the gate
 		{name: "witness-gate-atomic", chunks: []int{1}, renews: 1, order: []string{"S0", "R0", "R0", "R0", "S0*", "R0*", "S0*"}},
@@ -582,6 +592,9 @@ func c11(seed uint64, n int, schedArg string) {
 			ch = append(ch, r.Pick(1, 1, 2, 3))
 		}
 		sp := c11spec{name: fmt.Sprintf("random-%d-%d", seed, i), chunks: ch, renews: r.Pick(0, 1, 1, 2)}
+		if r.Intn(3) == 0 { // a third of the schedules run across the roll-over of the sequence counter
+			sp.preset = uint32(4294966272 - r.Intn(5))
+		}
 		if err := c11run(r, sp); err != nil {
 			emit(map[string]interface{}{"kind": "error", "scenario": sp.name, "err": err.Error()})
 		}
